@@ -72,7 +72,7 @@ func Parse(req *http.Request, enrichedTags tag.Tags, namespace string, limits *m
 		if bytes.HasPrefix(nextLine, []byte{'#'}) {
 			continue
 		}
-		if err := parseInfluxLine(rowBuilder, nextLine, namespace, multiplier, limits); err != nil {
+		if err := parseInfluxLineWithEnrichedTags(rowBuilder, nextLine, namespace, multiplier, limits, len(enrichedTags)); err != nil {
 			influxLogger.Warn("ingest error",
 				logger.String("line", string(nextLine)),
 				logger.Error(err))
